@@ -49,6 +49,8 @@ ASSUMPTIONS = [
     "where any intermediate of the reference is non-finite (log/sqrt/pow of a negative, division by zero, overflow) "
     "or where the reference is ill-conditioned (moves > tol/10 under a 1e-13 relative perturbation) are skipped",
     "float comparison |a-b| <= 1e-9 + 1e-7|b|",
+    "every call of a compiled / unpickled / traced / printed program is made with the binding as an explicit dict in "
+    "every keyword order (all permutations for <= 3 inputs; declared order, reverse and one rotation beyond)",
     "'rejected' = any exception; a returned value for a missing/unknown input is the violation (the unchanged tree "
     "raises ValueError, recorded in the outcome classes)",
     "tracing a function that returns a tuple is not claimed by the library (test_tracer.py::test_tuple is xfail) "
@@ -447,7 +449,8 @@ def snippet_trace(src, consts, kw, env, ref, allow, route):
         lines.append("%s = %s" % (k, _lit(v)))
     lines.append(src)
     lines.append(_data_code(env))
-    lines.append("program = trace_function(fn, data, allow_constants=%s)" % bool(allow))
+    lines.append("example = {k: data[k] for k in %r}  # the kwargs order used for tracing" % ([x[1] for x in kw],))
+    lines.append("program = trace_function(fn, example, allow_constants=%s)" % bool(allow))
     if route == "pickle":
         lines.append("program = pickle.loads(pickle.dumps(program))")
     if route == "as_code":
@@ -491,20 +494,48 @@ class Found(Exception):
         self.raised = raised  # name of the exception type when the route raised instead of returning a value
 
 
-def _call(route, prog, env, ref, prefix=""):
-    try:
-        got = prog(**env)
-    except Exception as ex:
-        raise Found(
-            prefix + route + ":raised",
-            "%s raised %s: %s where the reference value is %s" % (route, type(ex).__name__, str(ex)[:200], _short(ref)),
-            route,
-            env,
-            ref,
-            raised=type(ex).__name__,
-        )
-    if not L.close(got, ref):
-        raise Found(prefix + route, "%s returned %s, reference %s" % (route, _short(got), _short(ref)), route, env, ref)
+def keyword_orders(names):
+    """Orders in which a complete binding is passed: every permutation for <= 3 inputs; for more inputs the
+    given order (= program.inputs), its reverse and one rotation.  The first one is always the given order."""
+    import itertools
+
+    names = list(names)
+    if len(names) <= 3:
+        return [list(p) for p in itertools.permutations(names)]
+    return [names, names[::-1], names[1:] + names[:1]]
+
+
+def _call(route, prog, env, ref, prefix="", site=None):
+    """Call ``prog`` with the binding ``env`` as an explicit dict in every keyword order; compare with ``ref``."""
+    for order in keyword_orders(env):
+        kw = {k: env[k] for k in order}
+        extra = {"keyword_order": list(order), "keyword_order_is_declared_order": list(order) == list(env)}
+        try:
+            got = prog(**kw)
+        except Exception as ex:
+            f = Found(
+                site or (prefix + route + ":raised"),
+                "%s(%s) raised %s: %s where the reference value is %s"
+                % (route, ", ".join(order), type(ex).__name__, str(ex)[:200], _short(ref)),
+                route,
+                kw,
+                ref,
+                extra,
+                raised=type(ex).__name__,
+            )
+            f.origin = env
+            raise f
+        if not L.close(got, ref):
+            f = Found(
+                site or (prefix + route),
+                "%s(%s) returned %s, reference %s" % (route, ", ".join(order), _short(got), _short(ref)),
+                route,
+                kw,
+                ref,
+                extra,
+            )
+            f.origin = env
+            raise f
 
 
 def check_program(program, points, all_envs, counters, prefix=""):
@@ -572,19 +603,7 @@ def check_program(program, points, all_envs, counters, prefix=""):
             points[0][1] if points else None,
         )
     for env, ref in points:
-        try:
-            got = printed(**env)
-        except Exception as ex:
-            raise Found(
-                site,
-                "exec(as_code()) raised %s: %s where the reference value is %s" % (type(ex).__name__, str(ex)[:200], _short(ref)),
-                "as_code",
-                env,
-                ref,
-                raised=type(ex).__name__,
-            )
-        if not L.close(got, ref):
-            raise Found(site, "exec(as_code()) returned %s, reference %s" % (_short(got), _short(ref)), "as_code", env, ref)
+        _call("as_code", printed, env, ref, prefix, site=site)
     # the printed function must reject bad inputs as well (python's own TypeError counts)
     for k in list(env0):
         try:
@@ -696,7 +715,7 @@ def check_expr(case, seed):
         if f.raised and f.route != "reject":
             # "may decline": the program raised at a binding where substituting the arrays into the expression does
             # not produce a value either (e.g. a shape op applied to a Number, which is a python scalar)
-            idx = [i for i, (env, _) in enumerate(pts) if env is f.env]
+            idx = [i for i, (env, _) in enumerate(pts) if env is getattr(f, "origin", f.env)]
             st = sub_status[idx[0]] if idx and idx[0] < len(sub_status) else None
             if st is not None and st != "value":
                 return core.decline(key, "program-raises-and-substitution-declines:" + f.raised, counters=counters)
